@@ -442,6 +442,7 @@ func main() {
 	w4 := &sim.CaseWriter{OutDir: *outDir, Name: "c18send", Imports: imp, CaseType: "send_case", MFun: "send_mismatches", VFun: "send_violations", PerShard: 50}
 	sendQueueCases(r.Fork(), *nSend, w4)
 	w4.Close(st)
+	gossipBackToBack(r.Fork(), *outDir, 3)
 	for k := 0; k < *nStress; k++ {
 		interleaveStress(*outDir, 8, 6000, 4, 100)
 	}
